@@ -1469,9 +1469,25 @@ type gen struct {
 	reps  int
 	extra int
 	val   int
+	// value domain: the values are distinct within a scenario (the queue screens count them), now and
+	// then one of them is the zero value of the element type (what a `== zero` fast path or an
+	// "empty slot" test would mistake for nothing), and some are negative
+	zeroLeft bool
 }
 
-func (g *gen) next() int { g.val++; return g.val }
+func (g *gen) reset() { g.val = 0; g.zeroLeft = g.r.Chance(40) }
+
+func (g *gen) next() int {
+	g.val++
+	switch {
+	case g.zeroLeft && g.r.Chance(15):
+		g.zeroLeft = false
+		return 0
+	case g.r.Chance(8):
+		return -g.val
+	}
+	return g.val
+}
 
 func (g *gen) nthreads() int {
 	switch x := g.r.Intn(100); {
@@ -1525,7 +1541,7 @@ func (g *gen) runRace() {
 }
 
 func (g *gen) clq() {
-	g.val = 0
+	g.reset()
 	g.out.Line("new clq")
 	pre := g.r.Intn(3)
 	if g.r.Chance(50) {
@@ -1559,10 +1575,17 @@ func (g *gen) clq() {
 }
 
 func (g *gen) cpq() {
-	g.val = 0
+	g.reset()
 	cp := vlib.Pick(g.r, []int{-1, 0, 1, 2, 3, 5})
 	g.out.Line("new cpq cap=%d", cp)
-	el := func() string { return fmt.Sprintf("%d.%d", g.r.Range(1, 3), g.next()) }
+	lo := vlib.Pick(g.r, []int{1, 1, 0, -1}) // priorities lo..lo+2: many ties, zero and negative priorities
+	el := func() string {
+		id := g.next()
+		if id == 0 {
+			return "0.0" // the zero value of the element type
+		}
+		return fmt.Sprintf("%d.%d", g.r.Range(lo, lo+2), id)
+	}
 	pre := g.r.Intn(4)
 	for i := 0; i < pre; i++ {
 		g.out.Line("pre enq %s", el())
@@ -1592,7 +1615,7 @@ func (g *gen) cpq() {
 }
 
 func (g *gen) lst(kind string) {
-	g.val = 0
+	g.reset()
 	k := g.r.Intn(4)
 	init := make([]int, k)
 	for i := range init {
@@ -1668,7 +1691,7 @@ func (g *gen) lst(kind string) {
 // directed: writers shrink/grow the list while readers aim at the moving end (the window between a
 // reader's length check and its element access; multi-element reads against in-place writers)
 func (g *gen) lstRace(kind string) {
-	g.val = 0
+	g.reset()
 	k := g.r.Range(4, 8)
 	init := make([]int, k)
 	for i := range init {
@@ -1746,7 +1769,7 @@ func (g *gen) lstRace(kind string) {
 
 // directed: dequeuers against peekers/len on a pre-filled heap; enqueuers at the capacity boundary
 func (g *gen) cpqRace() {
-	g.val = 0
+	g.reset()
 	cp := vlib.Pick(g.r, []int{0, 0, 4, 6})
 	g.out.Line("new cpq cap=%d", cp)
 	k := g.r.Range(3, 6)
@@ -1786,7 +1809,7 @@ func (g *gen) cpqRace() {
 // directed: the queue oscillates around empty (the enqueue's two pointer updates against the
 // dequeuers' emptiness test and head CAS)
 func (g *gen) clqRace() {
-	g.val = 0
+	g.reset()
 	g.out.Line("new clq")
 	n := g.r.Range(2, 4)
 	for t := 1; t <= n; t++ {
@@ -1811,22 +1834,23 @@ func (g *gen) clqRace() {
 
 // directed: everybody fights for one key
 func (g *gen) mpRace() {
-	g.val = 0
+	g.reset()
 	g.out.Line("new map")
 	n := g.r.Range(2, 4)
+	k := vlib.Pick(g.r, []int{1, 1, 1, 0, -1})
 	for t := 1; t <= n; t++ {
 		for c := g.r.Range(2, 5); c > 0; c-- {
 			switch x := g.r.Intn(100); {
 			case x < 45:
-				g.out.Line("call %d losf 1 %d", t, g.next())
+				g.out.Line("call %d losf %d %d", t, k, g.next())
 			case x < 60:
-				g.out.Line("call %d losfe 1", t)
+				g.out.Line("call %d losfe %d", t, k)
 			case x < 80:
-				g.out.Line("call %d lad 1", t)
+				g.out.Line("call %d lad %d", t, k)
 			case x < 90:
-				g.out.Line("call %d del 1", t)
+				g.out.Line("call %d del %d", t, k)
 			default:
-				g.out.Line("call %d los 1 %d", t, g.next())
+				g.out.Line("call %d los %d %d", t, k, g.next())
 			}
 		}
 	}
@@ -1835,10 +1859,11 @@ func (g *gen) mpRace() {
 }
 
 func (g *gen) mp() {
-	g.val = 0
+	g.reset()
 	g.out.Line("new map")
 	nk := g.r.Range(1, 3)
-	key := func() int { return g.r.Range(1, nk) }
+	k0 := vlib.Pick(g.r, []int{1, 1, 0, -1}) // the key universe may contain the zero key and a negative one
+	key := func() int { return g.r.Range(k0, k0+nk-1) }
 	v := func() int {
 		if g.r.Chance(6) {
 			return 0
@@ -1918,6 +1943,20 @@ func generate(tier string, out *vlib.Out) {
 		// priority queue: capacity boundary and ties
 		"new cpq cap=1\ncall 1 enq 2.1\ncall 2 enq 1.2\ncall 3 deq\ncall 3 len\ncall 4 peek\npost len\npost dump\npost drain\nrun reps=%d seed=22",
 		"new cpq cap=0\npre enq 2.1\npre enq 2.2\ncall 1 deq\ncall 2 deq\ncall 3 enq 1.3\ncall 3 peek\ncall 4 cap\npost dump\npost drain\nrun reps=%d seed=23",
+		// the zero value of the element / key / value type and negative values are data like any other:
+		// stored, counted, returned with ok / loaded = true, never mistaken for "nothing there"
+		"new clq\ncall 1 enq 0\ncall 2 enq -1\ncall 3 deq\ncall 4 deq\npost dump\npost drain\npost dump\nrun reps=%d seed=24",
+		"new clq\npre enq 0\ncall 1 deq\ncall 1 deq\ncall 2 enq -2\ncall 2 deq\ncall 3 enq 3\npost dump\npost drain\nrun reps=%d seed=25",
+		"new cpq cap=2\ncall 1 enq 0.0\ncall 2 enq -1.5\ncall 3 deq\ncall 3 len\ncall 4 peek\npost len\npost dump\npost drain\nrun reps=%d seed=26",
+		"new cpq cap=0\npre enq 0.0\npre enq 0.1\ncall 1 deq\ncall 2 peek\ncall 3 enq -1.0\ncall 3 deq\ncall 4 len\npost len\npost dump\npost drain\nrun reps=%d seed=27",
+		"new cow init=0,0,-1\ncall 1 get 0\ncall 1 set 1 5\ncall 2 delete 0\ncall 2 append 0\ncall 3 add 0 0\ncall 3 range\ncall 4 asslice\npost asslice\npost len\nrun reps=%d seed=28",
+		"new clist base=array init=0\ncall 1 delete 0\ncall 2 get 0\ncall 2 append 0,-3\ncall 3 set 0 0\ncall 3 asslice\ncall 4 len\npost asslice\npost len\nrun reps=%d seed=29",
+		"new clist base=linked init=0,-1\ncall 1 delete 0\ncall 1 get 0\ncall 2 add 0 0\ncall 2 append 0\ncall 3 set 1 0\ncall 3 range\npost asslice\npost len\nrun reps=%d seed=30",
+		"new clist base=array init=5,6,7\npre set 0 0\npre add 1 0\npre append 0\ncall 1 set 3 0\ncall 2 get 0\ncall 2 get 1\ncall 3 asslice\ncall 3 delete 0\npost asslice\npost len\nrun reps=%d seed=33",
+		"new clist base=linked init=5,6,7\npre set 0 0\npre add 1 0\npre append 0\ncall 1 set 3 0\ncall 2 get 0\ncall 2 get 1\ncall 3 asslice\ncall 3 delete 0\npost asslice\npost len\nrun reps=%d seed=34",
+		"new cow init=5,6,7\npre set 0 0\npre add 1 0\npre append 0\ncall 1 set 3 0\ncall 2 get 0\ncall 2 get 1\ncall 3 asslice\ncall 3 delete 0\npost asslice\npost len\nrun reps=%d seed=35",
+		"new map\npre store 0 0\ncall 1 load 0\ncall 2 los 0 7\ncall 3 losf 0 0\ncall 4 lad 0\ncall 4 losf 0 0\npost range\nrun reps=%d seed=31",
+		"new map\ncall 1 losf 0 0\ncall 2 losf 0 5\ncall 3 load 0\ncall 3 los -1 0\ncall 4 lad 0\ncall 4 load -1\npost range\nrun reps=%d seed=32",
 	}
 	for _, c := range corpus {
 		for _, l := range strings.Split(c, "\n") {
